@@ -76,6 +76,37 @@ fn setup<Ty: EdgeType>(n: usize, start: usize, bits: usize, val: usize, multi: b
     Setup { g, r, dk, bad }
 }
 
+/// formula: v is reachable from t along edges whose nodes all lie in `allowed` (t and v included); simple paths enumerated
+fn restricted_reach<Ty: EdgeType>(g: &SymGraph<(), Ty>, n: usize, allowed: &[bool], t: usize, v: usize) -> String {
+    if !allowed[t] || !allowed[v] {
+        return "false".into();
+    }
+    if t == v {
+        return "true".into();
+    }
+    fn rec<Ty: EdgeType>(g: &SymGraph<(), Ty>, n: usize, allowed: &[bool], cur: usize, v: usize, used: &mut Vec<bool>, conj: &mut Vec<String>, out: &mut Vec<String>) {
+        for nx in 0..n {
+            if used[nx] || !allowed[nx] {
+                continue;
+            }
+            conj.push(g.var(cur, nx));
+            if nx == v {
+                out.push(and(conj));
+            } else {
+                used[nx] = true;
+                rec(g, n, allowed, nx, v, used, conj, out);
+                used[nx] = false;
+            }
+            conj.pop();
+        }
+    }
+    let mut used = vec![false; n];
+    used[t] = true;
+    let mut out = vec![];
+    rec(g, n, allowed, t, v, &mut used, &mut vec![], &mut out);
+    or(&out)
+}
+
 fn once(name: &str, n: usize, seq: &[usize]) -> bool {
     let mut seen = vec![false; n];
     for &v in seq {
@@ -160,6 +191,27 @@ impl Inst {
                         if once("dfs_reset", n, &seq3) {
                             check_set("dfs_reset", n, &seq3, |v| st.r[t][v].clone());
                         }
+                        // move_to in the middle of a walk: the pending frontier is dropped, already emitted nodes stay
+                        // discovered; what follows is what `second` reaches without passing through an emitted node
+                        {
+                            let mut d2 = Dfs::new(g, s);
+                            let first = d2.next(g);
+                            if first != Some(s) {
+                                fail("dfs/starts_at_start", &format!("{:?}", first));
+                            }
+                            d2.move_to(t);
+                            let mut rest = vec![];
+                            while let Some(v) = d2.next(g) {
+                                rest.push(v);
+                            }
+                            let mut allowed = vec![true; n];
+                            allowed[s] = false;
+                            let mut all = vec![s];
+                            all.extend(rest.iter().cloned());
+                            if once("dfs_move_to_midway", n, &all) {
+                                check_set("dfs_move_to_midway", n, &rest, |v| restricted_reach(g, n, &allowed, t, v));
+                            }
+                        }
                         // Bfs
                         let mut bfs = Bfs::new(g, s);
                         let mut bseq = vec![];
@@ -238,7 +290,9 @@ impl Inst {
                     Kind::DfsVisit => {
                         let mut events: Vec<(DfsEvent<usize>, u8)> = vec![];
                         let mut k = 0usize;
-                        let res: Control<usize> = depth_first_search(g, vec![s, self.second], |ev| {
+                        // the same script is played through a plain Control visitor or a Result<Control, E> visitor
+                        let via_result = (self.start + self.second + self.split_val) % 2 == 1;
+                        let mut script = |ev: DfsEvent<usize>| -> Control<usize> {
                             let is_finish = matches!(ev, DfsEvent::Finish(..));
                             let mut c = 0u8;
                             for j in 0..self.max_dev {
@@ -257,7 +311,14 @@ impl Inst {
                                 1 => Control::Prune,
                                 _ => Control::Break(events.len()),
                             }
-                        });
+                        };
+                        let res: Control<usize> = if via_result {
+                            let r: Result<Control<usize>, ()> = depth_first_search(g, vec![s, self.second], |ev| Ok(script(ev)));
+                            r.unwrap_or(Control::Continue)
+                        } else {
+                            depth_first_search(g, vec![s, self.second], |ev| script(ev))
+                        };
+                        drop(script);
                         validate_events(&mut SymSink(g), n, &[s, self.second], &events, res.break_value());
                     }
                 }
@@ -513,6 +574,34 @@ impl Harness for Inst {
                                 }
                             }
                         }
+                        {
+                            let mut w = Dfs::new(&g, s);
+                            let _ = w.next(&g);
+                            w.move_to(t);
+                            let mut rest: Vec<usize> = vec![];
+                            while let Some(x) = w.next(&g) {
+                                rest.push(x.index());
+                            }
+                            rest.sort();
+                            // reachable from `second` without passing through the start node
+                            let mut reach = vec![false; n];
+                            if self.second != self.start {
+                                reach[self.second] = true;
+                                for _ in 0..n {
+                                    for u in 0..n {
+                                        for v in 0..n {
+                                            if reach[u] && a[u][v] && v != self.start {
+                                                reach[v] = true;
+                                            }
+                                        }
+                                    }
+                                }
+                            }
+                            let want: Vec<usize> = (0..n).filter(|&v| reach[v]).collect();
+                            if rest != want {
+                                bad.push(format!("dfs_move_to_midway: after one step from {} and move_to({}) emitted {:?}, expected {:?}", self.start, self.second, rest, want));
+                            }
+                        }
                         for (nm, seq) in [("dfs", &d), ("bfs", &b), ("dfs_post_order", &p)] {
                             let mut sorted = seq.clone();
                             sorted.sort();
@@ -587,7 +676,8 @@ impl Harness for Inst {
                     let g = $g;
                     let mut events: Vec<(DfsEvent<usize>, u8)> = vec![];
                     let mut k = 0usize;
-                    let res: Control<usize> = depth_first_search(&g, vec![NodeIndex::new(self.start), NodeIndex::new(self.second)], |ev| {
+                    let via_result = (self.start + self.second + self.split_val) % 2 == 1;
+                    let mut play = |ev: DfsEvent<NodeIndex>| -> Control<usize> {
                         let ev: DfsEvent<usize> = match ev {
                             DfsEvent::Discover(u, t) => DfsEvent::Discover(u.index(), t),
                             DfsEvent::Finish(u, t) => DfsEvent::Finish(u.index(), t),
@@ -606,7 +696,15 @@ impl Harness for Inst {
                             1 => Control::Prune,
                             _ => Control::Break(events.len()),
                         }
-                    });
+                    };
+                    let starts = vec![NodeIndex::new(self.start), NodeIndex::new(self.second)];
+                    let res: Control<usize> = if via_result {
+                        let r: Result<Control<usize>, ()> = depth_first_search(&g, starts, |ev| Ok(play(ev)));
+                        r.unwrap_or(Control::Continue)
+                    } else {
+                        depth_first_search(&g, starts, |ev| play(ev))
+                    };
+                    drop(play);
                     let mut sink = ConcSink { a: &a, bad: vec![] };
                     validate_events(&mut sink, n, &[self.start, self.second], &events, res.break_value());
                     sink.bad
